@@ -1,5 +1,5 @@
 (* Prop_C10.v — C10: poisoning tracks panics during holds, and only those. *)
-From HL Require Import Base Model Shape Algo Api Conc OpsLemmas Lemmas ShapeLemmas ApiLemmas QuietLemmas Check Monitors Pf_Calls Pf_Hist Pf_Hist10.
+From HL Require Import Base Model Shape Algo Api Conc OpsLemmas Lemmas ShapeLemmas ApiLemmas QuietLemmas Check Monitors Pf_Calls Pf_Hist Pf_Hist5 Pf_Hist10.
 From HL Require WpMain.
 
 (* executions without panics never poison: ANY API call (other than clear_poison) that returns normally, in
@@ -154,7 +154,17 @@ Example C10_wfB_np_rejects_panicking_closure :
                       [[AKeyGet; AAcquire 0 Ex (FScoped true [CPanic])]]) = false.
 Proof. vm_compute. reflexivity. Qed.
 
+
+(* "plain Mutex and RwLock are never made unusable by panics in user code", the part the kill flags do not show: in EVERY
+   fault-free history no call that ends in a user-code panic issues a release in the wrong mode or of a lock that is not
+   held (what would corrupt a real raw lock) — the clause [mon_C10u] the check evaluates on the implementation *)
+Theorem C10_every_history_panics_release_cleanly :
+  forall sc, wf_histb sc = true -> mon_C10u sc (model_obs sc) = true.
+Proof. intros sc W. apply mon_C05_implies_C10u. now apply C05_all_histories_dec. Qed.
+Check C10_every_history_panics_release_cleanly : forall sc, wf_histb sc = true -> mon_C10u sc (model_obs sc) = true.
+
 Print Assumptions C10_no_panic_no_poison.
+Print Assumptions C10_every_history_panics_release_cleanly.
 Print Assumptions C10_guard_panic_poisons.
 Print Assumptions C10_own_scoped_panic_poisons.
 Print Assumptions C10_refuted_scoped_collection.
